@@ -51,10 +51,14 @@ def unit_path(unit):
 
 
 class Workdir(object):
+    _seq = 0
+
     def __init__(self):
         base = os.path.join(VERIF, '.work')
         os.makedirs(base, exist_ok=True)
-        self.path = os.path.join(base, 'run-%d' % os.getpid())
+        # one directory per instance: a rule may run an extra extraction (another configuration) while the main one is in use
+        Workdir._seq += 1
+        self.path = os.path.join(base, 'run-%d-%d' % (os.getpid(), Workdir._seq))
         shutil.rmtree(self.path, ignore_errors=True)
         os.makedirs(self.path)
 
